@@ -820,7 +820,12 @@ func (h *handler1) handleMqttSn(ctx context.Context, pkt snPkts.Packet) error {
 				cancelPinger := h.startSleepPinger(ctx)
 				time.AfterFunc(time.Duration(snPkt.Duration)*time.Second, cancelPinger)
 			}
-			h.pktBuffer = nil
+			// A client which is already asleep is awake now to prolong its
+			// sleep: the reply must not be queued (and the packets already
+			// queued for the client must be kept).
+			if h.state.Get() == util.StateAsleep {
+				h.setState(util.StateAwake)
+			}
 			m2 := snPkts1.NewDisconnect(0)
 			if err := h.snSend(m2); err != nil {
 				return err
